@@ -159,8 +159,31 @@ def run(ctx):
             src = bnp.as_encoded_array(text, senc)
             want = [text.upper()]
         before = decode_text(src)
+        if route in ("setitem", "list-of-elements") and (ragged or not text):
+            return
         try:
-            if route == "as_encoded_array":
+            if route == "setitem":
+                # already-encoded data reaches another alphabet by item assignment: same letters afterwards, or an error and an untouched receiver
+                talpha = [c.upper() for c in tenc.get_alphabet()]
+                recv_text = (talpha[0] * (len(text) + 2))
+                recv = bnp.as_encoded_array(recv_text, tenc)
+                try:
+                    recv[1:1 + len(text)] = src
+                except Exception:
+                    now = "".join(decode_text(recv))
+                    ctx.check("retarget-same-text-or-raise", now == recv_text, "retarget-changed-text:setitem-raised-but-modified", "assignment of %s data %r into %s array raised but left %r" % (sname, text, tname, now),
+                              {"source": sname, "target": tname, "text": text, "got": now}, (sname, tname, text, route))
+                    ctx.count("retarget_raised")
+                    return
+                res = recv
+                want = [recv_text[0] + text.upper() + recv_text[-1]]
+            elif route == "list-of-elements":
+                # single encoded elements (what iterating an encoded array gives) of two alphabets in one Python list
+                talpha = [c.upper() for c in tenc.get_alphabet()]
+                other = bnp.as_encoded_array("".join(talpha[:3]), tenc)
+                res = bnp.as_encoded_array(list(src) + list(other))
+                want = [text.upper() + "".join(talpha[:3])]
+            elif route == "as_encoded_array":
                 res = bnp.as_encoded_array(src, tenc)
             elif route == "change_encoding":
                 res = bnp.change_encoding(src, tenc)
@@ -192,8 +215,10 @@ def run(ctx):
             if tname == sname:
                 continue
             for t in texts:
-                for route in ("as_encoded_array", "change_encoding", "encode"):
-                    items.append(((sname, senc), (tname, tenc), t, route, len(t) % 2 == 1 and route != "encode"))
+                for route in ("as_encoded_array", "change_encoding", "encode", "setitem", "list-of-elements"):
+                    if route in ("setitem", "list-of-elements") and len(t) > 2:
+                        continue
+                    items.append(((sname, senc), (tname, tenc), t, route, len(t) % 2 == 1 and route not in ("encode", "setitem", "list-of-elements")))
     if ctx.quick and len(items) > 400000:
         items = [it for i, it in enumerate(items) if i % 3 == ctx.seed % 3]
     for it in ctx.mine(items):
